@@ -69,6 +69,21 @@ Theorem size_spec_delete : forall b key exact,
 Proof. exact delete_btree_spec_proof. Qed.
 Print Assumptions size_spec_delete.
 
+(* the defect repaired in /repo c9e1ffb, kept as a machine-checked witness: with the root
+   collapse only after successful deletes (`delete_tree_before_fix`), three deletes of absent keys
+   on the well-formed 17-key tree leave a root without keys over a minimal child, and the next
+   delete of a key that is present ends in IndexError - so delete_wf fails for that code *)
+Theorem delete_before_fix_refuted :
+  wf 3 all_minimal_17 /\
+  exists r1 r2 r3,
+    delete_tree_before_fix 3 all_minimal_17 1 None = Ok (r1, DNone) /\
+    delete_tree_before_fix 3 r1 91 None = Ok (r2, DNone) /\
+    delete_tree_before_fix 3 r2 151 None = Ok (r3, DNone) /\
+    find_sorted 0 (elements r3) = Some (0, 0) /\
+    delete_tree_before_fix 3 r3 0 None = Internal eIndex.
+Proof. exact delete_before_fix_refuted_proof. Qed.
+Print Assumptions delete_before_fix_refuted.
+
 Theorem frozen_rejects : forall b e io k exact,
   b_immut b = true ->
   insert_element b e io = Lib eImmutable /\ delete_btree b k exact = Lib eImmutable.
